@@ -300,8 +300,13 @@ func runC16(seed int64, tier string, sc *Script, withBody bool) map[string]any {
 			req, _ := http.NewRequestWithContext(ctx, http.MethodGet, "https://"+host+"/v2/a/manifests/x", nil)
 			bodyKind := "none"
 			if withBody {
-				switch rng.Intn(4) {
+				switch rng.Intn(5) {
 				case 0:
+				case 4:
+					// replayable, but the length is not announced (a streamed upload)
+					bodyKind = "replay0"
+					req, _ = http.NewRequestWithContext(ctx, http.MethodPut, "https://"+host+"/v2/a/manifests/x", strings.NewReader(bodyText))
+					req.ContentLength = 0
 				case 1:
 					bodyKind = "oneshot"
 					req, _ = http.NewRequestWithContext(ctx, http.MethodPut, "https://"+host+"/v2/a/manifests/x", oneShotBody{strings.NewReader(bodyText)})
